@@ -128,3 +128,32 @@ fn vs_just_before_death() {
     finish(t);
 }
 }
+
+// @verif id=VS.death.unflushed props=C03,C04,C08 tier=quick timeout=1200 mem=16
+// @functions VirtualSocket::just_before_death, UserRx (flush on death), OutOfOrderQueue::send_front_if_fits
+// @bounds clean close (no error) or death with an error; the reader is alive but slow: its queue holds 4 of 6 bytes while two in-order, already ACKNOWLEDGED messages (1 + 2 = 3 bytes, more than the 2 bytes of room) still wait in the reassembly queue (data that arrived beyond the advertised window, e.g. a zero-window probe)
+// @asserts before the connection task ends, everything already in order (acknowledged to the peer) is handed to the read half: the reassembly queue's in-order prefix is empty and the reader's queue holds the two extra messages (in front of the error, if any) - acknowledged data is never discarded while a reader can still take it
+// @unwindset make_tx_at=9,__vs::record=37
+crate::verif_tier_c! {
+#[kani::unwind(8)]
+fn vs_death_hands_over_acknowledged_data() {
+    use crate::stream_rx::verif_stream_rx__rx::{make as make_rx, payload_item};
+    let mut t = make_vsock(VirtualSocketState::Closed, VsConfig { link_mtu: 52, rx_buf: 12, nagle: true, ring: (8, 0, 0), tx_max: 8 });
+    let (urx, rh, _g) = make_rx::<1>(0b011, usize::MAX, [payload_item(4)]);
+    let old = std::mem::replace(&mut t.vsock.user_rx, urx);
+    std::mem::forget(old);
+    let with_error: bool = kani::any();
+    let err = Error::MaxRetransmissionsReached;
+    let w = cx_waker();
+    let mut cx = Context::from_waker(&w);
+    t.vsock.just_before_death(&mut cx, if with_error { Some(&err) } else { None });
+    std::mem::forget(err);
+    let queued = crate::stream_rx::verif_stream_rx__rx::verif_queue_items(&t.vsock.user_rx);
+    let (ooq_len, ooq_ff, _b) = crate::stream_rx::verif_stream_rx__rx::verif_ooq_scalars(&t.vsock.user_rx);
+    assert!(ooq_ff == 0 && ooq_len == 0, "C03: in-order data already acknowledged to the peer is handed to the reader before the connection task ends");
+    assert!(queued == 3 + if with_error { 1 } else { 0 }, "C04: acknowledged data is never discarded while the reader can still take it");
+    kani::cover!(true, "end of harness reachable (assumptions satisfiable, no unconditional failure)");
+    std::mem::forget(rh);
+    finish(t);
+}
+}
